@@ -11,7 +11,7 @@
   The taxonomy (`is` graph) is the model of Hs.Model.Ns on the projection `RowX.toRow`; results are lists of
   def names, compared as sets wherever the code drains a `HashSet`.
 
-  Not modelled here: `protos` (reads `children` through the Zinc decoder), `core_type_defs` (16 look-ups).
+  `protos` is Hs.Model.NsProtos.  Not modelled: `core_type_defs` (16 look-ups).
   Core-only imports (linked into `hsdriver`).
 -/
 import Hs.Model.Ns
